@@ -14,6 +14,8 @@ open EmitModel.Traceparent
 mutual
 def roots (hs : Bool) (validActive : Bool) : Prog → Nat
   | .event => 0
+  -- a span emitted as an event where no valid traceparent is active starts (and is all of) a new trace
+  | .spanEvent => if validActive then 0 else if hs then 1 else 0
   | .span cs => (if validActive then 0 else if hs then 1 else 0) + rootsList hs true cs
   | .spanThread cs => (if validActive then 0 else if hs then 1 else 0) + rootsList hs true cs
   | .spanAsync cs => (if validActive then 0 else if hs then 1 else 0) + rootsList hs true cs
@@ -29,6 +31,7 @@ end
 mutual
 def ExtOnly : Prog → Prop
   | .event => True
+  | .spanEvent => True
   | .span cs => ExtOnlyList cs
   | .spanThread cs => ExtOnlyList cs
   | .spanAsync cs => ExtOnlyList cs
@@ -116,6 +119,10 @@ theorem run_main_span (c : Cfg) (cs : List Prog) (e : Env) (hb : Below e.st e.rn
 theorem run_main (c : Cfg) : ∀ (p : Prog) (e : Env), ExtOnly p → Below e.st e.rng →
     e.rng ≤ (run c p e).rng ∧ (run c p e).calls = e.calls + roots c.hasSampler (validOf e.st) p
   | .event, e, _, _ => by simp [run, observeEvent, roots]
+  | .spanEvent, e, _, hb => by
+    simp only [run, roots, emitSpanEvent_eq_open, openSpan_eq_spec c e hb]
+    obtain ⟨_, _, _, _, hrng, hcalls, _⟩ := openSpec_facts c e
+    exact ⟨hrng, hcalls⟩
   | .span cs, e, hx, hb => by
     simp only [roots]
     exact run_main_span c cs e hb (fun e' hb' => run_list c cs e' (by simpa [ExtOnly] using hx) hb')
@@ -186,6 +193,7 @@ theorem sampler_once_per_root (c : Cfg) (p : Prog) (e : Env) (hx : ExtOnly p) (h
 mutual
 def NoPush : Prog → Prop
   | .event => True
+  | .spanEvent => True
   | .span cs => NoPushList cs
   | .spanThread cs => NoPushList cs
   | .spanAsync cs => NoPushList cs
@@ -200,6 +208,7 @@ end
 
 theorem extOnly_of_noPush : ∀ (p : Prog), NoPush p → ExtOnly p
   | .event, _ => trivial
+  | .spanEvent, _ => trivial
   | .span cs, h => by simp only [ExtOnly]; exact list cs (by simpa [NoPush] using h)
   | .spanThread cs, h => by simp only [ExtOnly]; exact list cs (by simpa [NoPush] using h)
   | .spanAsync cs, h => by simp only [ExtOnly]; exact list cs (by simpa [NoPush] using h)
@@ -219,6 +228,8 @@ def Silent : Obs → Prop
   | .spanOpen enabled _ => enabled = false
   | .spanDone _ => False
   | .event cur _ ids _ passIn => cur.sampled = false ∧ ids = Ids.empty ∧ passIn = false
+  -- a span emitted as an event is rejected by both filters (so the runtime does not emit it)
+  | .spanEvent _ pass passIn => pass = false ∧ passIn = false
 
 /-- What "inside the sampled trace `t`" means for one observation. -/
 def InTrace (t : Option Id) : Obs → Prop
@@ -227,6 +238,8 @@ def InTrace (t : Option Id) : Obs → Prop
   | .spanDone ids => ids.traceId = t ∧ ids.spanId.isSome = true
   | .event cur _ ids _ passIn =>
     cur.traceId = t ∧ cur.sampled = true ∧ passIn = true ∧ ids.traceId = t ∧ ids.spanId = cur.spanId
+  -- a span emitted as an event passes both filters and is in the trace
+  | .spanEvent ids pass passIn => pass = true ∧ passIn = true ∧ ids.traceId = t ∧ ids.spanId.isSome = true
 
 theorem openSpec_unsampled (c : Cfg) (e : Env) (a : Active) (hst : e.st = some a) (hv : a.tp.valid = true)
     (hs : a.tp.sampled = false) :
@@ -283,6 +296,14 @@ theorem unsampled_silent (c : Cfg) : ∀ (p : Prog) (e : Env) (a : Active), NoPu
     simp only [run, observeEvent, hst, List.mem_cons] at ho
     rcases ho with rfl | ho
     · right; simp [Silent, current, ambientIds, hs]
+    · exact Or.inl ho
+  | .spanEvent, e, a, _, hb, hst, hv, hs => by
+    intro o ho
+    obtain ⟨child, seen, sid, n, hopen, _, _⟩ := openSpec_unsampled c e a hst hv hs
+    simp only [run, emitSpanEvent_eq_open, openSpan_eq_spec c e hb, hopen, asSpanEvent, passInSampled, hst,
+      List.mem_cons] at ho
+    rcases ho with rfl | ho
+    · right; simp [Silent, hs]
     · exact Or.inl ho
   | .span cs, e, a, hn, hb, hst, hv, hs =>
     unsampled_span c cs e a hb hst hv hs
@@ -376,6 +397,13 @@ theorem sampled_in_trace (c : Cfg) : ∀ (p : Prog) (e : Env) (a : Active), NoPu
     simp only [run, observeEvent, hst, List.mem_cons] at ho
     rcases ho with rfl | ho
     · right; simp [InTrace, current, ambientIds, hs]
+    · exact Or.inl ho
+  | .spanEvent, e, a, _, hb, hst, hv, hs => by
+    intro o ho
+    simp only [run, emitSpanEvent_eq_open, openSpan_eq_spec c e hb, openSpec_sampled c e a hst hv hs, asSpanEvent,
+      passInSampled, hst, List.mem_cons] at ho
+    rcases ho with rfl | ho
+    · right; simp [InTrace, hs]
     · exact Or.inl ho
   | .span cs, e, a, hn, hb, hst, hv, hs =>
     sampled_span c cs e a hb hst hv hs
@@ -503,6 +531,62 @@ theorem root_without_sampler_is_sampled (c : Cfg) (e : Env) (hns : c.hasSampler 
   simp only [hf, hns, Bool.false_eq_true, if_false]
   exact ⟨trivial, trivial, _, rfl, by simp [TP.sampled], rfl⟩
 
+/-! ### Spans emitted as events (no guard) are governed by the same decision -/
+
+/-- **A manual span gets the verdict a guard would get.** A completed span emitted as an event through the
+    runtime (range extent, `evt_kind: span`, ids of a new child of the current span context) is accepted by
+    `TraceparentFilter` exactly when `SpanGuard::new` at the same point would have been enabled; it draws the same
+    ids, costs the same sampler calls and logs the same sampler observation — and leaves the thread's traceparent
+    alone (no frame). For every configuration and state, no freshness assumption. -/
+theorem span_event_filtered_like_span_start (c : Cfg) (e : Env) :
+    (run c .spanEvent e).st = e.st ∧
+    (run c .spanEvent e).rng = (openSpan c e).2.2.2.rng ∧
+    (run c .spanEvent e).calls = (openSpan c e).2.2.2.calls ∧
+    ∃ seen rest, (openSpan c e).2.2.2.out = .spanOpen (openSpan c e).1 seen :: rest ∧
+      (run c .spanEvent e).out = .spanEvent seen (openSpan c e).1 (passInSampled c e.st) :: rest := by
+  refine ⟨by simp [run], rfl, rfl, _, _, rfl, rfl⟩
+
+/-- **Inside an unsampled trace a span emitted as an event is rejected**, whatever its extent: under a valid
+    unsampled traceparent `TraceparentFilter` answers `false` (so the runtime does not emit it), so does
+    `InSampledTraceFilter`, the sampler is not called and nothing else is logged. -/
+theorem span_event_in_unsampled_trace_rejected (c : Cfg) (e : Env) (a : Active) (hb : Below e.st e.rng)
+    (hst : e.st = some a) (hv : a.tp.valid = true) (hs : a.tp.sampled = false) :
+    ∃ seen n, e.rng ≤ n ∧
+      run c .spanEvent e = { e with rng := n, out := .spanEvent seen false false :: e.out } := by
+  obtain ⟨child, seen, sid, n, hopen, _, hn⟩ := openSpec_unsampled c e a hst hv hs
+  refine ⟨seen, n, hn, ?_⟩
+  simp only [run, emitSpanEvent_eq_open, openSpan_eq_spec c e hb, hopen, asSpanEvent, passInSampled, hst, hs]
+
+/-- **Inside a sampled trace a span emitted as an event is accepted and belongs to the trace**: both filters
+    answer `true`, the span carries the trace id, the current span id as its parent and one fresh span id; the
+    sampler is not called. -/
+theorem span_event_in_sampled_trace_accepted (c : Cfg) (e : Env) (a : Active) (hb : Below e.st e.rng)
+    (hst : e.st = some a) (hv : a.tp.valid = true) (hs : a.tp.sampled = true) :
+    run c .spanEvent e =
+      { e with rng := e.rng + 1,
+               out := .spanEvent ⟨a.tp.traceId, a.tp.spanId, some (.gen (e.rng + 1))⟩ true true :: e.out } := by
+  simp only [run, emitSpanEvent_eq_open, openSpan_eq_spec c e hb, openSpec_sampled c e a hst hv hs, asSpanEvent,
+    passInSampled, hst, hs]
+
+/-- **Outside any trace a span emitted as an event is a trace of its own**: with a sampler configured the sampler
+    is consulted exactly once and its answer is the verdict; without one the span is accepted and nothing is
+    consulted. `InSampledTraceFilter` answers as configured for events outside traces when nothing at all is
+    active. -/
+theorem span_event_outside_trace (c : Cfg) (e : Env) (hv : validOf e.st = false) :
+    ∃ seen rest, (run c .spanEvent e).out = .spanEvent seen (if c.hasSampler then c.decide e.calls else true)
+        (passInSampled c e.st) :: rest ∧
+      (run c .spanEvent e).calls = e.calls + (if c.hasSampler then 1 else 0) ∧
+      (c.hasSampler = false → rest = e.out) := by
+  have hf : e.st.filter (fun a => a.tp.valid) = none := by
+    cases h : e.st.filter (fun a => a.tp.valid) with
+    | none => rfl
+    | some a => simp [validOf, h] at hv
+  -- an invalid active traceparent is ignored by `incoming`: no freshness assumption is needed
+  simp only [run, emitSpanEvent, incoming, hf, passInSampled]
+  cases c.hasSampler
+  · simp [applyMask, TP.sampled]; cases e.st <;> rfl
+  · cases c.decide e.calls <;> simp [maskIsSampled, applyMask, TP.sampled] <;> cases e.st <;> rfl
+
 /-- **Defect (before the fix)**: a frame captured with `Frame::current` was inactive, so on a fresh thread the
     trace was lost: no active traceparent there. -/
 theorem carry_unfixed_loses_trace (st : Option Active) : carryUnfixedInside st = none := rfl
@@ -554,5 +638,27 @@ example : ((run cfg0 (.span [.pushState 7 [.span [.event]]]) env0).out.any fun o
 -- … while one pushed outside any trace is dropped when a root span starts
 example : ((run cfg0 (.pushState 7 [.span [.event]]) env0).out.any fun o =>
     match o with | .event _ 0 _ _ _ => true | _ => false) = true := by decide
+
+-- spans emitted as events: an unsampled trace rejects them without a sampler call …
+private def unsampledEnv : Env := ⟨some ⟨⟨some (.ext 1000001), some (.ext 1000000), 0⟩, none, 0⟩, 0, 0, []⟩
+private def sampledEnv : Env := ⟨some ⟨⟨some (.ext 1000001), some (.ext 1000000), 1⟩, none, 0⟩, 0, 0, []⟩
+example : Below unsampledEnv.st unsampledEnv.rng ∧ Below sampledEnv.st sampledEnv.rng := by
+  constructor <;> (intro a k h1 h2; cases h1; cases h2)
+example : run cfg0 .spanEvent unsampledEnv =
+    { unsampledEnv with rng := 2, out := [.spanEvent ⟨some (.gen 1), none, some (.gen 2)⟩ false false] } := by decide
+-- … a sampled one accepts them as children of the current span …
+example : run cfg0 .spanEvent sampledEnv =
+    { sampledEnv with rng := 1, out := [.spanEvent ⟨some (.ext 1000001), some (.ext 1000000), some (.gen 1)⟩ true true] } := by
+  decide
+-- … and outside any trace each one is a root of its own: the sampler decides, one call each
+example : (runList cfg0 [.spanEvent, .spanEvent, .event] env0).calls = 2 ∧
+    (runList cfg0 [.spanEvent, .spanEvent] env0).out =
+      [.spanEvent ⟨some (.gen 3), none, some (.gen 4)⟩ false false, .sampler (some (.gen 3)) (.gen 4) false,
+       .spanEvent ⟨some (.gen 1), none, some (.gen 2)⟩ true false, .sampler (some (.gen 1)) (.gen 2) true] := by decide
+example : roots true false (.span [.spanEvent]) = 1 ∧ roots true false .spanEvent = 1 ∧
+    rootsList true false [.spanEvent, .push ⟨some (.ext 1000001), some (.ext 1000000), 0⟩ [.spanEvent]] = 1 := by decide
+-- a rejected manual span inside a span whose trace the sampler refused
+example : ((run cfg0 (.span [.span [.spanEvent]]) { env0 with calls := 1 }).out.any fun o =>
+    match o with | .spanEvent _ false false => true | _ => false) = true := by decide
 
 end EmitModel.C18
